@@ -1192,6 +1192,10 @@ func (db *DB) Repair(of Object) (err error) {
 		if !uuids[uuid] {
 			// if object is not on disk and is in index
 			s.unindexByUUID(uuid)
+			// a copy of it may still be cached, it must not be served anymore
+			gone := newIterator(db, of, nil).object()
+			gone.Initialize(uuid)
+			db.cache.delete(gone)
 		}
 	}
 
